@@ -21,6 +21,7 @@
 import Kopf.Base.J
 import Kopf.Lemmas.C17_Mirror
 import Kopf.Lemmas.C17_GateLive
+import Kopf.Lemmas.C17_Nodup
 namespace Kopf.C17
 
 section Index
@@ -58,18 +59,23 @@ theorem no_empty_collections (veq : V → V → Bool) (cfg : List (Indexer Id Re
 /-- **Mirror (full strength, for every `==`).** After any history, every index equals `groupBy`
     of the reference up to Python equality: under key `k`, object `o` has a value iff its *latest
     documented contribution* has one under `k` (nothing when it was deleted, stopped matching,
-    failed temporarily/permanently or is excluded; the previous values when the function returned
-    `None` or its error was ignored; `{None: v}` for a non-mapping result), and the stored value is
-    that latest value or an older result of the same object under the same key that `==` does not
-    distinguish from it (`Store._replace` skips the update then). -/
+    failed temporarily/permanently, used up its retries/timeout or is excluded; the previous values
+    when the function returned `None` or its error was ignored; `{None: v}` for a non-mapping
+    result), and the stored value is that latest value, or (`RelH`) an *older result*: a value that
+    the same function returned for the same object under the same key earlier and that `==` does not
+    distinguish from the latest one (`Store._replace` skips the update then).
+    The model runs events one after another: `OperatorIndexers.replace/discard` are synchronous and
+    touch only the event's own object key (`others_untouched`), so concurrent workers of different
+    objects commute on the indices. -/
 theorem mirror_upto_pyeq (veq : V → V → Bool) (cfg : List (Indexer Id Res L)) (bk : Nat)
     (hnd : (cfg.map (·.id)).Nodup)
     (evs : List (Event Id Res L K V O)) (s : State Id K V O)
     (h : run veq cfg bk State.init evs = some s) (c : Indexer Id Res L) (hc : c ∈ cfg) (k : Option K) (o : O) :
-    Rel veq ((s.ixs c.id).val k o) (groupBy (fun o => (refRun cfg bk c o RefSt.init evs).contrib) k o) := by
+    RelH veq (refRun cfg bk c o RefSt.init evs).hist k ((s.ixs c.id).val k o)
+      (groupBy (fun o => (refRun cfg bk c o RefSt.init evs).contrib) k o) := by
   obtain ⟨s', h', _, hl⟩ := mirror_gen veq cfg bk hnd evs State.init _ State.invAll_init (link_init veq cfg)
   rw [h] at h'; cases h'
-  exact (hl c hc o).2 k
+  exact (hl c hc o).2.2 k
 
 /- Full statement of the property's first sentence (FALSE of the code, see `mirror_witness`):
      ∀ veq …, (s.ixs c.id).val k o = groupBy (fun o => (refRun cfg bk c o RefSt.init evs).contrib) k o
@@ -81,7 +87,15 @@ theorem mirror_partial (veq : V → V → Bool) (hveq : ∀ a b, veq a b = true 
     (evs : List (Event Id Res L K V O)) (s : State Id K V O)
     (h : run veq cfg bk State.init evs = some s) (c : Indexer Id Res L) (hc : c ∈ cfg) (k : Option K) (o : O) :
     (s.ixs c.id).val k o = groupBy (fun o => (refRun cfg bk c o RefSt.init evs).contrib) k o :=
-  Rel.eq_of_lawful hveq (mirror_upto_pyeq veq cfg bk hnd evs s h c hc k o)
+  Rel.eq_of_lawful hveq (RelH.toRel (mirror_upto_pyeq veq cfg bk hnd evs s h c hc k o))
+
+/-- **Keys are unique** in `Index.__items`, in every `Store.__items` and in `Index.__reverse` after
+    any history: the association lists of the model denote Python dicts (so the first-match lookups
+    `Index.val`/`aget` used by the other theorems see everything the real views iterate over). -/
+theorem keys_unique (veq : V → V → Bool) (cfg : List (Indexer Id Res L)) (bk : Nat)
+    (evs : List (Event Id Res L K V O)) (s : State Id K V O)
+    (h : run veq cfg bk State.init evs = some s) (i : Id) : (s.ixs i).ND :=
+  run_nd veq cfg bk evs State.init s (fun _ => Index.nd_empty) h i
 
 /-- … and the in-memory exclusion record is the reference's. -/
 theorem mirror_exclusions (veq : V → V → Bool) (cfg : List (Indexer Id Res L)) (bk : Nat) (hnd : (cfg.map (·.id)).Nodup)
@@ -108,11 +122,6 @@ variable (veq : V → V → Bool) (cfg : List (Indexer Id Res L)) (bk : Nat) (hn
   (hs : step veq cfg bk s e = some s') (c : Indexer Id Res L) (hc : c ∈ cfg)
 include hnd hi hs hc
 
-/-- events never touch other objects' entries -/
-theorem others_untouched (k : Option K) (o : O) (ho : o ≠ e.obj) :
-    (s'.ixs c.id).val k o = (s.ixs c.id).val k o := by
-  rw [view_of_step veq cfg bk hnd s s' e hi hs c hc, view_other _ _ _ _ _ _ ho]
-
 /-- `DELETED`: the object's values are removed (when its kind is indexed at all). -/
 theorem deleted_discards (hk : cfg.any (fun c' => decide (c'.res = e.res)) = true)
     (hd : e.deleted = true) (k : Option K) : (s'.ixs c.id).val k e.obj = none := by
@@ -132,38 +141,25 @@ theorem excluded_stays_out (hk : cfg.any (fun c' => decide (c'.res = e.res)) = t
   rw [view_of_step veq cfg bk hnd s s' e hi hs c hc]
   by_cases hd : e.deleted = true <;> simp [actOf, hk, hd, invoked, hx, Act.view]
 
-/-- a `None` result keeps the existing values -/
+/-- a `None` result keeps the existing values (budget of `retries=`/`timeout=` not used up) -/
 theorem none_keeps (hv : invoked s e c = true) (hd : e.deleted = false)
-    (hl : ∀ n, c.retries = some n → (hOf s e c).retries < n)
+    (hl : c.exhausted (hOf s e c) e.t = false)
     (hr : e.script c.id = .none) (k : Option K) :
     (s'.ixs c.id).val k e.obj = (s.ixs c.id).val k e.obj := by
   rw [view_of_step veq cfg bk hnd s s' e hi hs c hc]
   unfold actOf execOne
-  cases hrt : c.retries with
-  | none => by_cases hk : cfg.any (fun c' => decide (c'.res = e.res)) = true <;>
-      simp [hk, hd, hv, hr, Act.view]
-  | some n =>
-    have := hl n hrt
-    have hn : ¬ n ≤ (hOf s e c).retries := Nat.not_le.2 this
-    by_cases hk : cfg.any (fun c' => decide (c'.res = e.res)) = true <;>
-      simp [hk, hd, hv, hr, hn, Act.view]
+  by_cases hk : cfg.any (fun c' => decide (c'.res = e.res)) = true <;>
+    simp [hk, hd, hv, hr, hl, Act.view]
 
 /-- an arbitrary exception under `errors=IGNORED` (the default) keeps the existing values -/
 theorem ignored_error_keeps (hv : invoked s e c = true) (hd : e.deleted = false)
-    (hl : ∀ n, c.retries = some n → (hOf s e c).retries < n)
+    (hl : c.exhausted (hOf s e c) e.t = false)
     (hr : e.script c.id = .otherErr) (hmode : c.errors = none ∨ c.errors = some .ignored) (k : Option K) :
     (s'.ixs c.id).val k e.obj = (s.ixs c.id).val k e.obj := by
   rw [view_of_step veq cfg bk hnd s s' e hi hs c hc]
   unfold actOf execOne
-  cases hrt : c.retries with
-  | none =>
-    by_cases hk : cfg.any (fun c' => decide (c'.res = e.res)) = true <;>
-      rcases hmode with hm | hm <;> simp [hk, hd, hv, hr, hm, Act.view]
-  | some n =>
-    have := hl n hrt
-    have hn : ¬ n ≤ (hOf s e c).retries := Nat.not_le.2 this
-    by_cases hk : cfg.any (fun c' => decide (c'.res = e.res)) = true <;>
-      rcases hmode with hm | hm <;> simp [hk, hd, hv, hr, hm, hn, Act.view]
+  by_cases hk : cfg.any (fun c' => decide (c'.res = e.res)) = true <;>
+    rcases hmode with hm | hm <;> simp [hk, hd, hv, hr, hm, hl, Act.view]
 
 /-- `TemporaryError`, `PermanentError`, and arbitrary exceptions under `errors=TEMPORARY/PERMANENT`
     remove the object's values -/
@@ -172,30 +168,37 @@ theorem error_discards (hk : cfg.any (fun c' => decide (c'.res = e.res)) = true)
           (e.script c.id = .otherErr ∧ (c.errors = some .temporary ∨ c.errors = some .permanent)))
     (k : Option K) : (s'.ixs c.id).val k e.obj = none := by
   rw [view_of_step veq cfg bk hnd s s' e hi hs c hc]
-  have hx : (execOne c bk (hOf s e c) (e.script c.id)).exception = true := by
+  have hx : (execOne c bk e.t (hOf s e c) (e.script c.id)).exception = true := by
     unfold execOne
     rcases hr with ⟨d, hr⟩ | hr | ⟨hr, hm | hm⟩ <;> rw [hr] <;> (try rw [hm]) <;>
-      cases c.retries <;> simp <;> (split <;> try rfl) <;> (split <;> rfl)
+      simp <;> (split <;> try rfl) <;> (split <;> rfl)
   by_cases hd : e.deleted = true
   · simp [actOf, hk, hd, Act.view]
   · by_cases hv : invoked s e c = true
     · simp [actOf, hk, hd, hv, hx, Act.view]
     · simp [actOf, hk, hd, hv, Act.view]
 
+/-- a used-up budget (`retries=` attempts made, or `timeout=` seconds since the first failure of the
+    series passed) removes the values without calling the function -/
+theorem exhausted_discards (hk : cfg.any (fun c' => decide (c'.res = e.res)) = true)
+    (hl : c.exhausted (hOf s e c) e.t = true) (k : Option K) : (s'.ixs c.id).val k e.obj = none := by
+  rw [view_of_step veq cfg bk hnd s s' e hi hs c hc]
+  by_cases hd : e.deleted = true
+  · simp [actOf, hk, hd, Act.view]
+  · by_cases hv : invoked s e c = true
+    · simp [actOf, execOne, hk, hd, hv, hl, Act.view]
+    · simp [actOf, hk, hd, hv, Act.view]
+
 /-- a mapping result replaces the object's values by its items (up to `==`, see `mirror_upto_pyeq`) -/
 theorem dict_replaces (hv : invoked s e c = true) (hd : e.deleted = false)
     (hk : cfg.any (fun c' => decide (c'.res = e.res)) = true)
-    (hl : ∀ n, c.retries = some n → (hOf s e c).retries < n)
+    (hl : c.exhausted (hOf s e c) e.t = false)
     (m : List (Option K × V)) (hr : e.script c.id = .dict m) (k : Option K) :
     Rel veq ((s'.ixs c.id).val k e.obj) (lastval k m) := by
   rw [view_of_step veq cfg bk hnd s s' e hi hs c hc]
   have hact : actOf cfg bk s e c = .replace m := by
     unfold actOf execOne
-    cases hrt : c.retries with
-    | none => simp [hk, hd, hv, hr]
-    | some n =>
-      have hn : ¬ n ≤ (hOf s e c).retries := Nat.not_le.2 (hl n hrt)
-      simp [hk, hd, hv, hr, hn]
+    simp [hk, hd, hv, hr, hl]
   rw [hact]
   simp only [Act.view, if_true]
   by_cases hkm : k ∈ m.map Prod.fst
@@ -207,17 +210,13 @@ theorem dict_replaces (hv : invoked s e c = true) (hd : e.deleted = false)
 /-- any other non-`None` result `v` is stored as `{None: v}` (up to `==`) -/
 theorem scalar_under_none_key (hv : invoked s e c = true) (hd : e.deleted = false)
     (hk : cfg.any (fun c' => decide (c'.res = e.res)) = true)
-    (hl : ∀ n, c.retries = some n → (hOf s e c).retries < n)
+    (hl : c.exhausted (hOf s e c) e.t = false)
     (v : V) (hr : e.script c.id = .scalar v) (k : Option K) :
     Rel veq ((s'.ixs c.id).val k e.obj) (if k = none then some v else none) := by
   rw [view_of_step veq cfg bk hnd s s' e hi hs c hc]
   have hact : actOf cfg bk s e c = .replace [(none, v)] := by
     unfold actOf execOne
-    cases hrt : c.retries with
-    | none => simp [hk, hd, hv, hr]
-    | some n =>
-      have hn : ¬ n ≤ (hOf s e c).retries := Nat.not_le.2 (hl n hrt)
-      simp [hk, hd, hv, hr, hn]
+    simp [hk, hd, hv, hr, hl]
   rw [hact]
   simp only [Act.view, if_true]
   by_cases hkn : k = none
@@ -236,11 +235,12 @@ section Examples
 open Kopf.C17
 
 private def cfgEx : List (Indexer Nat Nat Nat) :=
-  [⟨1, 0, some 7, some .temporary, some 2, some 3⟩, ⟨2, 0, none, none, none, none⟩]
+  [⟨1, 0, some 7, some .temporary, some 2, some 3, none⟩, ⟨2, 0, none, none, none, none, none⟩,
+   ⟨3, 0, none, some .temporary, none, some 1, some 4⟩]
 
 private def ev (t : Nat) (o : Nat) (del : Bool) (lab : Option Nat) (s1 s2 : Script Nat Nat) :
     Event Nat Nat Nat Nat Nat Nat :=
-  ⟨t, 0, o, del, lab, fun i => if i = 1 then s1 else s2⟩
+  ⟨t, 0, o, del, lab, fun i => if i = 1 then s1 else if i = 2 then s2 else .otherErr⟩
 
 private def hist : List (Event Nat Nat Nat Nat Nat Nat) :=
   [ ev 0 10 false (some 7) (.dict [(some 1, 100), (none, 101)]) (.scalar 5),
@@ -262,20 +262,30 @@ example : (run (fun a b => a == b) cfgEx 60 (State.init : State Nat Nat Nat Nat)
 -- hypotheses of the table lemmas are satisfiable: after two events, the third one calls both
 -- functions (`invoked`), and after it index 1 is excluded at t = 3 (`awake = false`, backoff 3)
 example : (run (fun a b => a == b) cfgEx 60 (State.init : State Nat Nat Nat Nat) (hist.take 2)).map
-    (fun s => (invoked s (ev 2 10 false (some 7) .otherErr .otherErr) ⟨2, 0, none, none, none, none⟩,
-               invoked s (ev 2 10 false (some 7) .otherErr .otherErr) ⟨1, 0, some 7, some .temporary, some 2, some 3⟩))
+    (fun s => (invoked s (ev 2 10 false (some 7) .otherErr .otherErr) ⟨2, 0, none, none, none, none, none⟩,
+               invoked s (ev 2 10 false (some 7) .otherErr .otherErr) ⟨1, 0, some 7, some .temporary, some 2, some 3, none⟩))
     = some (true, true) := by decide
 
 example : (run (fun a b => a == b) cfgEx 60 (State.init : State Nat Nat Nat Nat) (hist.take 3)).map
-    (fun s => (hOf s (ev 3 10 false (some 7) .none .none) ⟨1, 0, some 7, some .temporary, some 2, some 3⟩).awake 3)
+    (fun s => (hOf s (ev 3 10 false (some 7) .none .none) ⟨1, 0, some 7, some .temporary, some 2, some 3, none⟩).awake 3)
     = some false := by decide
 
-example : (refRun cfgEx 60 ⟨2, 0, none, none, none, none⟩ 10 (RefSt.init : RefSt Nat Nat) hist).excl
-    = some ⟨1, none, true⟩ := by decide
+example : (refRun cfgEx 60 ⟨2, 0, none, none, none, none, none⟩ 10 (RefSt.init : RefSt Nat Nat) hist).excl
+    = some ⟨1, none, true, 5⟩ := by decide
+
+-- `timeout=4`, `backoff=1`, `errors=TEMPORARY`: failures at t = 0 and 2 are retried; at t = 3 the
+-- look-ahead (3 + 1 ≥ 4 seconds since the first failure) makes the failure final
+example : (refRun cfgEx 60 ⟨3, 0, none, some .temporary, none, some 1, some 4⟩ 10 (RefSt.init : RefSt Nat Nat) hist).excl
+    = some ⟨3, none, true, 0⟩ := by decide
+
+example : (run (fun a b => a == b) cfgEx 60 (State.init : State Nat Nat Nat Nat) (hist.take 4)).map
+    (fun s => (⟨3, 0, none, some .temporary, none, some 1, some 4⟩ : Indexer Nat Nat Nat).exhausted
+                (hOf s (ev 5 10 false (some 8) .none .none) ⟨3, 0, none, some .temporary, none, some 1, some 4⟩) 5)
+    = some true := by decide
 
 /-! #### the exact mirror statement is false for Python's `==` (finding C17/F1) -/
 
-private def cW : Indexer Nat Nat Nat := ⟨1, 0, none, none, none, none⟩
+private def cW : Indexer Nat Nat Nat := ⟨1, 0, none, none, none, none, none⟩
 
 private def evW (t : Nat) (v : J) : Event Nat Nat Nat Nat J Nat :=
   ⟨t, 0, 10, false, none, fun _ => .dict [(some 1, v)]⟩
